@@ -34,6 +34,7 @@ import SteelVerif.C09.CoreLoop
 import SteelVerif.C09.CoreWFStep
 import SteelVerif.C09.CoreSrc2
 import SteelVerif.C09.CoreStack2
+import SteelVerif.C09.CoreApply
 namespace SteelVerif.C09C
 open SteelVerif.C01C
 
@@ -790,5 +791,63 @@ example (c : Cfg)
   core_loop_constant_space_and_stack_src primSlots _ _ (by decide) T.stOk_prims c hr
 -- the boundary-based checker accepts the generated code of the nested-lambda example the first checker rejected
 example : T.goodCodeB 3 primSlots true (compileTop nestedJump) = true := by decide
+
+/-! ## Tail calls through `apply`
+
+`CoreApply.lean`: the built-in `apply` as the VM executes it, bound to a global slot `as` (`stepA`); in the source core
+`(apply f a … lst)` is `Core.callG as (f :: a … ++ [lst])`, compiled by the unchanged `compile` — so
+`tail_positions_marked_core` covers it as it stands: in tail position it is emitted as `CALLGLOBALTAIL as; TAILCALL n`
+(`apply_tail_marked` below), and the source predicate `T.TailOnlySrc` accepts it there and rejects a non-tail `apply`
+inside a lambda body (like every non-tail call of a non-primitive).  `apply_tail_reuses_frame`: the VM then spreads the
+list, moves the arguments down to the frame's base and pushes no frame.  `apply_loop_constant_frames_src`: every
+configuration of a tail-only source form run with `apply` has at most one frame.  NOT covered: `apply` in the reference
+semantics / `compile_correct_core`; the operand-stack bound (the number of spread arguments is a run-time quantity). -/
+
+/-- `(apply f a … lst)` in tail position of a lambda body is compiled to `CALLGLOBALTAIL as; TAILCALL n`. -/
+theorem apply_tail_marked (as : Nat) {body : Core} {ops : List Core} (h : TailApp body (.callG as ops)) :
+    ∃ pre post, bodyCode body = pre ++ [.CALLGLOBALTAIL as, .TAILCALL ops.length] ++ post := by
+  obtain ⟨pre, post, hc, _⟩ := tail_positions_marked_core h
+  exact ⟨pre, post, by simpa [tailInstrs] using hc⟩
+
+/-- **A tail-only source form that uses `apply` runs in one frame**: every configuration reached by the VM with the
+`apply` built-in (`stepA as`, `as` not a primitive slot) from a well-formed state has at most one frame, and the
+invariant `T.Inv` (so the next form starts from a well-formed state again). -/
+theorem apply_loop_constant_frames_src (ps : Params) (as : Nat) (has : as ∉ ps.slots) (e : Core)
+    (he : T.TailOnlySrc ps e = true) (st : St (List Instr)) (hst : T.StOk ps st) (n : Nat) (c : Cfg)
+    (hs : stepsA as n (initCfg (compileTop e) st) = some c) : c.frames.length ≤ 1 ∧ T.Inv ps c := by
+  have hinit : T.Inv ps (initCfg (compileTop e) st) :=
+    ⟨T.GoodL.nil ps, hst, T.goodCode_top ps e he, T.Ok.zero _⟩
+  have := T.inv_stepsA as has n _ c hinit hs
+  exact ⟨this.len, this⟩
+
+/-- The same on instruction sequences accepted by the boundary-based checker (real listings). -/
+theorem apply_loop_constant_frames (fuel : Nat) (ps : Params) (as : Nat) (has : as ∉ ps.slots) (code : List Instr)
+    (hc : T.goodCodeB fuel ps true code = true) (st : St (List Instr)) (hst : T.StOk ps st) (n : Nat) (c : Cfg)
+    (hs : stepsA as n (initCfg code st) = some c) : c.frames.length ≤ 1 := by
+  have hinit : T.Inv ps (initCfg code st) :=
+    ⟨T.GoodL.nil ps, hst, T.goodCodeB_sound ps fuel true code hc, T.Ok.zero _⟩
+  exact (T.inv_stepsA as has n _ c hinit hs).len
+
+/-! ### Non-vacuity: a loop through `apply` -/
+
+/-- `(define (lp n . r) (if (<= n 0) 0 (apply lp (- n 1) r)))` — `apply` is slot 6; `r` is the (empty) rest list. -/
+def applySlot : Nat := 6
+def lpA : Core := .define 26 (.lam 2 true []
+  (.ite (.callG 4 [.loc 0 false, .const (.int 0)]) (.const (.int 0))
+    (.callG applySlot [.glob 26, .callG 1 [.loc 0 true, .const (.int 1)], .loc 1 true])))
+
+example : T.TailOnlySrc primSlots lpA = true ∧ T.TailOnlySrc primSlots (.callG 26 [.const (.int 9)]) = true := by decide
+example : applySlot ∉ primSlots.slots := by decide
+example : TailApp (.ite (.callG 4 [.loc 0 false, .const (.int 0)]) (.const (.int 0))
+    (.callG applySlot [.glob 26, .callG 1 [.loc 0 true, .const (.int 1)], .loc 1 true]))
+    (.callG applySlot [.glob 26, .callG 1 [.loc 0 true, .const (.int 1)], .loc 1 true]) := .elseB (.here _ rfl)
+set_option maxRecDepth 8000 in
+example : maxFramesA applySlot 300 (initCfg (compileTop (.callG 26 [.const (.int 9)])) (stOf [lpA])) = 1 := by decide
+set_option maxRecDepth 8000 in
+example : (match runA applySlot 300 (initCfg (compileTop (.callG 26 [.const (.int 9)])) (stOf [lpA])) with
+    | .ok (v, _) => V.toInt? v | _ => none) = some 0 := by decide
+-- a non-tail `apply` inside a lambda body is rejected by the source predicate
+example : T.TailOnlySrc primSlots (.define 27 (.lam 1 false []
+    (.callG 0 [.const (.int 1), .callG applySlot [.glob 27, .loc 0 true]]))) = false := by decide
 
 end SteelVerif.C09C
